@@ -290,7 +290,7 @@ func (vc *VC) execBlock(b *ssa.BasicBlock) {
 		var mems []*Mem
 		var preds []*ssa.BasicBlock
 		for _, p := range b.Preds {
-			if vc.R[p] == "" {
+			if vc.R[p] == "" || deadEdge(p, b) {
 				continue
 			}
 			conds = append(conds, vc.edgeCond(p, b))
@@ -316,7 +316,7 @@ func (vc *VC) execBlock(b *ssa.BasicBlock) {
 			first := true
 			for i := len(b.Preds) - 1; i >= 0; i-- {
 				p := b.Preds[i]
-				if vc.R[p] == "" {
+				if vc.R[p] == "" || deadEdge(p, b) {
 					continue
 				}
 				ev := vc.val(phi.Edges[i])
@@ -416,7 +416,7 @@ func (vc *VC) enterLoop(b *ssa.BasicBlock, l *loopInfo) {
 	var mems []*Mem
 	var entries []*ssa.BasicBlock
 	for _, p := range b.Preds {
-		if vc.isBack(p, b) || vc.R[p] == "" {
+		if vc.isBack(p, b) || vc.R[p] == "" || deadEdge(p, b) {
 			continue
 		}
 		conds = append(conds, vc.edgeCond(p, b))
